@@ -3,6 +3,7 @@ pub mod disasm;
 pub mod json;
 pub mod lift;
 pub mod pipeline;
+pub mod tc;
 pub mod types;
 pub mod value;
 pub mod vm;
@@ -25,6 +26,7 @@ pub fn generate(family: &str, seed: u64, n: usize, tier: &str, emit: &mut dyn Fn
         "hash" => lift::generate_hash(seed, n, tier, emit),
         "lift" => lift::generate_lift(seed, n, tier, emit),
         "watchdog" => watchdog::generate(seed, n, tier, emit),
+        "tc" => tc::generate(seed, n, tier, emit),
         "fold" => value::generate_fold(seed, n, tier, emit),
         "size" => value::generate_size(seed, n, tier, emit),
         _ => panic!("unknown family {family}"),
@@ -48,6 +50,7 @@ pub fn eval(family: &str, payload: &str) -> String {
         "hash" => lift::eval_hash(payload),
         "lift" => lift::eval_lift(payload),
         "watchdog" => watchdog::eval(payload),
+        "tc" => tc::eval(payload),
         "fold" => value::eval_fold(payload),
         "size" => value::eval_size(payload),
         _ => format!("err unknown-family-{family}"),
